@@ -17,6 +17,7 @@ import (
 	"strconv"
 	"strings"
 	"sync"
+	"sync/atomic"
 	"time"
 )
 
@@ -81,8 +82,51 @@ func build() {
 
 func testBin() string { return filepath.Join(root, ".work", "checks.test") }
 
+// The race instrument: the same checks binary built with -race (controlled schedules, simulator
+// synchronisation hidden from the detector, virtual sync primitives annotated).
+func raceBin() string { return filepath.Join(root, ".work", "checks.race.test") }
+
+var raceBuilt bool
+var raceSeq atomic.Int64
+
+func buildRace() {
+	if raceBuilt {
+		return
+	}
+	cmd := exec.Command("go1.26.8", "test", "-race", "-c", "-overlay", filepath.Join(root, ".work", "ov", "overlay.json"), "-o", raceBin(), "./checks")
+	cmd.Dir = root
+	cmd.Env = env()
+	cmd.Stderr = os.Stderr
+	cmd.Stdout = os.Stderr
+	if err := cmd.Run(); err != nil {
+		die(2, "race build failed: %v", err)
+	}
+	raceBuilt = true
+}
+
+// raceProps lists the properties whose check has a race-instrument phase.
+var raceProps = map[string]bool{"C15": true}
+
 func runWorker(extra []string, stdout *bytes.Buffer) (int, string) {
-	cmd := exec.Command(testBin(), "-test.run", "^TestWorker$", "-test.timeout", "0")
+	return runWorkerBin(false, extra, stdout)
+}
+
+func runWorkerBin(race bool, extra []string, stdout *bytes.Buffer) (int, string) {
+	bin := testBin()
+	if race {
+		bin = raceBin()
+		logp := filepath.Join(root, ".work", "run", fmt.Sprintf("race-%d-%d", os.Getpid(), raceSeq.Add(1)))
+		os.MkdirAll(filepath.Dir(logp), 0o755)
+		extra = append(extra, "GORACE=log_path="+logp+" halt_on_error=0", "VERIF_RACE_LOG="+logp)
+		defer func() {
+			if fs, _ := filepath.Glob(logp + "*"); fs != nil {
+				for _, f := range fs {
+					os.Remove(f)
+				}
+			}
+		}()
+	}
+	cmd := exec.Command(bin, "-test.run", "^TestWorker$", "-test.timeout", "0")
 	cmd.Env = append(env(), extra...)
 	var stderr bytes.Buffer
 	cmd.Stderr = &stderr
@@ -94,6 +138,11 @@ func runWorker(extra []string, stdout *bytes.Buffer) (int, string) {
 		return 0, stderr.String()
 	}
 	if ee, ok := err.(*exec.ExitError); ok {
+		if race && ee.ExitCode() == 1 {
+			// the testing package marks a run in which the detector reported anything (simulator state
+			// included) as failed; the verdict is in the result lines, not in the exit code
+			return 0, stderr.String()
+		}
 		return ee.ExitCode(), stderr.String()
 	}
 	return -1, err.Error()
@@ -152,46 +201,65 @@ func main() {
 		}
 	}
 	// fan out
-	var wg sync.WaitGroup
 	var mu sync.Mutex
 	infra := ""
-	for wid := 0; wid < tc.Workers; wid++ {
-		wg.Add(1)
-		go func(wid int) {
-			defer wg.Done()
-			out := filepath.Join(dir, fmt.Sprintf("w%d.jsonl", wid))
-			from := wid
-			deadline := start.Add(time.Duration(tc.BudgetS) * time.Second)
-			for {
-				rem := int(time.Until(deadline).Seconds())
-				if rem <= 0 {
-					return
-				}
-				code, stderr := runWorker([]string{"VERIF_MODE=batch", "VERIF_PROP=" + prop, "VERIF_SEED=" + fmt.Sprint(seed), "VERIF_TIER=" + tier,
-					fmt.Sprintf("VERIF_FROM=%d", from), fmt.Sprintf("VERIF_TO=%d", tc.MaxRuns), fmt.Sprintf("VERIF_STRIDE=%d", tc.Workers),
-					fmt.Sprintf("VERIF_BUDGET_S=%d", rem), "VERIF_OUT=" + out}, nil)
-				if code == 0 {
-					return
-				}
-				if code == 3 {
-					// worker asked for a fresh process (leaked goroutines): continue after its last run
-					last := lastIdx(out)
-					if last < 0 {
-						last = from - tc.Workers
+	fanOut := func(race bool, prefix string, base int, deadline time.Time) {
+		var wg sync.WaitGroup
+		for wid := 0; wid < tc.Workers; wid++ {
+			wg.Add(1)
+			go func(wid int) {
+				defer wg.Done()
+				out := filepath.Join(dir, fmt.Sprintf("%s%d.jsonl", prefix, wid))
+				from := base + wid
+				for {
+					rem := int(time.Until(deadline).Seconds())
+					if rem <= 0 {
+						return
 					}
-					from = last + tc.Workers
-					continue
+					code, stderr := runWorkerBin(race, []string{"VERIF_MODE=batch", "VERIF_PROP=" + prop, "VERIF_SEED=" + fmt.Sprint(seed), "VERIF_TIER=" + tier,
+						fmt.Sprintf("VERIF_FROM=%d", from), fmt.Sprintf("VERIF_TO=%d", base+tc.MaxRuns), fmt.Sprintf("VERIF_STRIDE=%d", tc.Workers),
+						fmt.Sprintf("VERIF_BUDGET_S=%d", rem), "VERIF_OUT=" + out}, nil)
+					if code == 0 {
+						return
+					}
+					if code == 3 {
+						// worker asked for a fresh process (leaked goroutines): continue after its last run
+						last := lastIdx(out)
+						if last < 0 {
+							last = from - tc.Workers
+						}
+						from = last + tc.Workers
+						continue
+					}
+					mu.Lock()
+					if infra == "" {
+						infra = fmt.Sprintf("worker %d exited with %d:\n%s", wid, code, tail(stderr, 6000))
+					}
+					mu.Unlock()
+					return
 				}
-				mu.Lock()
-				if infra == "" {
-					infra = fmt.Sprintf("worker %d exited with %d:\n%s", wid, code, tail(stderr, 6000))
-				}
-				mu.Unlock()
-				return
-			}
-		}(wid)
+			}(wid)
+		}
+		wg.Wait()
 	}
-	wg.Wait()
+	budget := time.Duration(tc.BudgetS) * time.Second
+	raceRuns := 0
+	if raceProps[prop] && os.Getenv("VERIF_NO_RACE") == "" {
+		// 60 % of the budget under the plain binary, 40 % under the race instrument (other run indices)
+		t0 := time.Now()
+		fanOut(false, "w", 0, t0.Add(budget*6/10))
+		if infra == "" {
+			buildRace()
+			fanOut(true, "wr", 50000000, time.Now().Add(budget*4/10))
+			for wid := 0; wid < tc.Workers; wid++ {
+				if n := lastIdx(filepath.Join(dir, fmt.Sprintf("wr%d.jsonl", wid))); n >= 0 {
+					raceRuns += (n-50000000)/tc.Workers + 1
+				}
+			}
+		}
+	} else {
+		fanOut(false, "w", 0, start.Add(budget))
+	}
 	if infra != "" {
 		die(2, "%s", infra)
 	}
@@ -337,8 +405,11 @@ func main() {
 		dst := filepath.Join(root, "replays", fmt.Sprintf("%s-%s-%s-seed%d-run%d.json", prop, safe(g.clause), safe(g.sig), seed, g.best.Idx))
 		minFile := dst
 		var so bytes.Buffer
-		code, stderr := runWorker([]string{"VERIF_MODE=minimize", "VERIF_FILE=" + g.best.ViolFile, "VERIF_MIN_OUT=" + dst, "VERIF_BUDGET_S=90"}, &so)
-		minInfo := grepResult(so.String(), "MINIMIZE-RESULT ")
+		code, stderr, minInfo := 1, "", "not minimised (race reports are de-duplicated per process)"
+		if g.clause != "race" {
+			code, stderr = runWorker([]string{"VERIF_MODE=minimize", "VERIF_FILE=" + g.best.ViolFile, "VERIF_MIN_OUT=" + dst, "VERIF_BUDGET_S=90"}, &so)
+			minInfo = grepResult(so.String(), "MINIMIZE-RESULT ")
+		}
 		if code != 0 || !strings.Contains(minInfo, `"reproduced":true`) {
 			// fall back to the unminimised file
 			b, err := os.ReadFile(g.best.ViolFile)
@@ -384,29 +455,30 @@ func main() {
 		"wall_s":      wall,
 		"violations":  nviol,
 		"coverage": map[string]any{
-			"evaluations":         evaluations,
-			"histories":           len(results),
-			"distinct_nontrivial": len(distinct),
-			"rule": rule,
-			"samples":                  samples,
-			"nontrivial_runs":          nontriv,
-			"distinct_histories":       len(states),
-			"scheduler_steps":          steps,
-			"context_switches":         switches,
-			"simulated_seconds":        float64(simUs) / 1e6,
-			"runs_per_hour":            float64(len(results)) / exploreS * 3600,
-			"faults_fired":             faults,
-			"probes":                   probes,
-			"inconclusive":             inconcl,
+			"evaluations":                     evaluations,
+			"histories":                       len(results),
+			"distinct_nontrivial":             len(distinct),
+			"rule":                            rule,
+			"samples":                         samples,
+			"nontrivial_runs":                 nontriv,
+			"distinct_histories":              len(states),
+			"scheduler_steps":                 steps,
+			"context_switches":                switches,
+			"simulated_seconds":               float64(simUs) / 1e6,
+			"runs_per_hour":                   float64(len(results)) / exploreS * 3600,
+			"faults_fired":                    faults,
+			"probes":                          probes,
+			"inconclusive":                    inconcl,
 			"runs_with_unkillable_goroutines": leaked,
-			"known_findings_hit":       knownHit,
-			"violations_reported":      report,
-			"workers":                  tc.Workers,
-			"build_s":                  buildS,
-			"explore_s":                exploreS,
-			"mode":                     "controlled (overlay R1-R7, seeded one-task-at-a-time scheduler, synctest clock)",
-			"rewriter_report":          readJSON(filepath.Join(root, ".work", "ov", "report.json")),
-			"real_vs_stub":             realVsStub(prop),
+			"known_findings_hit":              knownHit,
+			"violations_reported":             report,
+			"workers":                         tc.Workers,
+			"build_s":                         buildS,
+			"explore_s":                       exploreS,
+			"mode":                            "controlled (overlay R1-R7, seeded one-task-at-a-time scheduler, synctest clock)",
+			"rewriter_report":                 readJSON(filepath.Join(root, ".work", "ov", "report.json")),
+			"real_vs_stub":                    realVsStub(prop),
+			"race_instrument_runs":            raceRuns,
 		},
 		"assumptions": []string{
 			"Go toolchain and testing/synctest fake clock are correct",
@@ -431,6 +503,30 @@ func realVsStub(prop string) map[string]string {
 		"MQTT clients and their codec": "simulator (independent implementation)",
 		"TCP":                          "stub: in-memory byte pipe with chunking, latency, cut, stall",
 		"clock, goroutine scheduling, select, map order, math/rand": "simulator controlled",
+	}
+	switch prop {
+	case "C06":
+		m = map[string]string{
+			"pkg/packets Reader, Writer, every Unpack / Pack, buffer pool, TotalBytes": "real code, instrumented by overlay",
+			"packet producer and the decoder judging the echo":                         "simulator (independent MQTT 3.1/3.1.1/5 codec)",
+			"connection": "stub: in-memory byte pipe with chunking, truncation + EOF, corruption",
+			"goroutine scheduling of the relay tasks": "simulator controlled",
+			"gmqtt server": "not part of this check",
+		}
+	case "C09", "C10":
+		m["redis server"] = "stub: simulated RESP server (command subset used by gmqtt) with a write journal, crash at any journal position, error / dropped-connection injection; gmqtt's redis persistence and redigo's protocol code are real"
+	case "C16", "C17":
+		m["plugin/federation (hooks, event queue, peer loop, Hello / EventStream handlers, session manager), generated protobuf + gRPC stubs, protobuf encoding"] = "real code, instrumented by overlay"
+		m["serf (membership, gossip, failure detection)"] = "stub: per-observer membership events with seeded delays in any legal serf order"
+		m["grpc-go transport (HTTP/2)"] = "stub: message-granular duplex transport per RPC with seeded latency, cuts in either direction, delayed notice of a cut, unreachable peers"
+	case "C18":
+		m["net/http server, gorilla/websocket (upgrade, framing)"] = "real code (not instrumented), running on the simulated listener"
+		m["WebSocket client"] = "simulator (own RFC 6455 client with seeded fragmentation)"
+	case "C19":
+		m["plugin/auth (password file load / save, account API)"] = "real code, instrumented by overlay"
+		m["file system"] = "real files in a per-run sandbox directory; open / rename / remove re-targeted and failed by injection"
+	case "C14":
+		m["hooks and wrappers"] = "recording / deciding test plugins registered through the real plugin API"
 	}
 	return m
 }
@@ -503,7 +599,15 @@ func grepResult(out, prefix string) string {
 // when verbose, prints the VIOLATION line), 0 if not, 2 on trouble.
 func replay(file string, verbose bool) int {
 	var so bytes.Buffer
-	code, stderr := runWorker([]string{"VERIF_MODE=replay", "VERIF_FILE=" + file}, &so)
+	race := false
+	if b, err := os.ReadFile(file); err == nil {
+		var rf struct{ Clause string }
+		if json.Unmarshal(b, &rf) == nil && rf.Clause == "race" {
+			race = true
+			buildRace()
+		}
+	}
+	code, stderr := runWorkerBin(race, []string{"VERIF_MODE=replay", "VERIF_FILE=" + file}, &so)
 	res := grepResult(so.String(), "REPLAY-RESULT ")
 	if code != 0 || res == "" {
 		fmt.Fprintf(os.Stderr, "replay worker exit %d\n%s\n%s\n", code, tail(so.String(), 2000), tail(stderr, 4000))
